@@ -678,6 +678,10 @@ class SymNum:
         return _wrap(z3.If(self.t >= 0, self.t, -self.t))
 
     def _cmp(self, o, f):
+        if isinstance(o, (float, np.floating)) and math.isinf(o):
+            # finite real against +-inf
+            big = z3.RealVal(1) if o > 0 else z3.RealVal(-1)
+            return SymBool(z3.simplify(f(z3.RealVal(0), big)))
         b = _arith(o)
         if b is None:
             return NotImplemented
